@@ -47,7 +47,7 @@ STRATEGIES = ["plain", "page_by", "page_by_np", "page_by_np_first", "subline", "
 
 def gen_spec(rng, *, strategy=None, n=None, nrow=None, header_mode=None, footnote=None, source=None,
              placements=None, long_rows=True, dividers=False, levels=None, title=None, subline=None,
-             page_headers=None, nulls=0.0, geometry=None, pageby_header=None, font=None, size=None):
+             page_headers=None, nulls=0.0, geometry=None, pageby_header=None, font=None, size=None, collide=False):
     """Returns (spec, info). info carries what the oracles need (keys, displayed columns, …)."""
     strategy = strategy or rng.choice(STRATEGIES + ["plain"])
     n = rng.randint(0, 40) if n is None else n
@@ -96,6 +96,29 @@ def gen_spec(rng, *, strategy=None, n=None, nrow=None, header_mode=None, footnot
                 i = j
         keyvals[kc] = vals
         outer = vals if outer is None else [a + "|" + b for a, b in zip(outer, vals)]
+
+    if collide and page_by and len(page_by) >= 2 and n >= 2:
+        # two adjacent groups whose key tuples differ although their concatenations are equal:
+        # ('G0z', 'G1yG1x') then ('G0zG1y', 'G1x') — still one value per level, contiguous, and level-tagged
+        o, i1 = keyvals[page_by[0]], keyvals[page_by[1]]
+        starts = [i for i in range(1, n) if o[i] != o[i - 1]]
+        if starts:
+            b = rng.choice(starts)
+            lo = b - 1
+            while lo > 0 and o[lo - 1] == o[b - 1] and i1[lo - 1] == i1[b - 1]:
+                lo -= 1
+            hi = b
+            while hi + 1 < n and o[hi + 1] == o[b] and i1[hi + 1] == i1[b]:
+                hi += 1
+            a0, a1 = lo, hi + 1
+            while a0 > 0 and o[a0 - 1] == o[b - 1]:
+                a0 -= 1
+            while a1 < n and o[a1] == o[b]:
+                a1 += 1
+            o[a0:b] = ["G0z"] * (b - a0)
+            o[b:a1] = ["G0zG1y"] * (a1 - b)
+            i1[lo:b] = ["G1yG1x"] * (b - lo)
+            i1[b:hi + 1] = ["G1x"] * (hi + 1 - b)
 
     datacols = [f"COL{j}" for j in range(ndata)]
     all_cols = hier + datacols
